@@ -187,6 +187,8 @@ word_chars = st.characters(min_codepoint=33, max_codepoint=0x24F,
                            blacklist_characters=G.LINE_BREAKS + " \t\xa0\x1f",
                            blacklist_categories=("Cc", "Cs", "Zs", "Zl", "Zp"))
 _words = st.one_of(st.sampled_from([w for w in G.WRAPPED if " " not in w and "\t" not in w]),
+                   # every one-character word (some are markers in other tools' dialects: * T O H ...)
+                   st.sampled_from([chr(c) for c in range(33, 127)]),
                    st.sampled_from(["solo", "soloend", "a=b", '"q"', '"solo"', '"phrase_start"', '"lyric"', "N", "S",
                                     "2", "0=N", "[x]", "{", "}"]),
                    st.text(alphabet=word_chars, min_size=1, max_size=20),
@@ -317,7 +319,14 @@ def _sections(draw, ctx):
             lines.append([f"{lp}{tz}{tick} = E {w}{rp}", "E", [tick, w]])
             for _ in range(draw(st.sampled_from([0, 0, 0, 0, 1, 2]))):   # repeated verbatim
                 lines.append(list(lines[-1]))
-        else:
+        if what in ("N", "S") and draw(st.integers(0, 3)) == 0:
+            # another kind of line on the very same tick (N lines, then S, then E: Moonscraper's order)
+            if what == "N" and draw(st.booleans()):
+                ln = draw(st.integers(0, 500))
+                lines.append([f"{lp}{tick} = S 2 {ln}{rp}", "S", [tick, ln]])
+            w = draw(_words)
+            lines.append([f"{lp}{tick} = E {w}{rp}", "E", [tick, w]])
+        if what not in ("N", "S", "E"):
             bad = draw(st.sampled_from([
                 f"{tick} = S 64 10", f"{tick} = N 8 0", f"{tick} = E two words", f"{tick} = S 0 5",
                 f"{tick} = N 0", f"{tick} = S 2", f"{tick} = N 0 0 0", f"{tick}= N 0 0",
